@@ -347,6 +347,12 @@ def gen_unit(rng):
 def gen_mk(rng, indexlike=True, malformed=False, minlen=1):
     n = rng.choice([1, 1, 2, 2, 3, 4, 5])
     n = max(n, minlen)
+    if rng.random() < 0.1:
+        # data that is large against its spread (|mean| / std ~ 1e5): distinct integers around a big offset, so that
+        # the two-pass variance stays within the 1e-9 of the model comparison and a cancelling formula does not
+        off = rng.choice([10 ** 5, 2 ** 17, 10 ** 6, -(10 ** 5)])
+        data = [off + d for d in rng.sample(range(-20, 21), n)]
+        return ["mk", data, gen_errspec(rng, n, malformed), gen_name(rng, indexlike), gen_unit(rng)]
     return ["mk", [gen_num(rng) for _ in range(n)], gen_errspec(rng, n, malformed), gen_name(rng, indexlike), gen_unit(rng)]
 
 
@@ -629,7 +635,8 @@ def correspondence(ctx):
                 ok_edits += 1
         if ok_edits >= 2:
             res.nontrivial.add(core.canonical_key("s", ops))
-    res.rule = ("sessions over one heap: initial arrays (no / common / per-element / relative uncertainties, with and without "
+    res.rule = ("sessions over one heap: initial arrays (no / common / per-element / relative uncertainties, 10% with data "
+                "that is large against its spread (integers around 1e5 .. 1e6), with and without "
                 "name and unit, also names ending in _<digits>) then 3-13 random edits (append / insert / delete / item "
                 "assignment; operand = number (Python int / float / bool, numpy int64 / int32 / int8 / uint8 / float64 / float32 scalar, Fraction), (value, error) pair of those, Measurement, list of those, ndarray of numbers, another "
                 "MeasurementArray; target = the latest array (75%) or any older one; indices uniform over the valid range "
@@ -764,6 +771,23 @@ def check_aggregates(arr, model):
             mean = sx / n
             var = sum((v - mean) ** 2 for v, _ in model) / (n - 1)
             m, sd = arr.mean(), arr.std()
+            # numerical quality: the two-pass sample variance (what numpy computes) has a relative error of a few
+            # eps * max|x| / std; a formula that subtracts two large moments (mean(x^2) - mean(x)^2) has
+            # eps * (max|x| / std)^2 and fails this tolerance for data that is large against its spread
+            big = max(abs(v) for v, _ in model)
+            eps = Fraction(1, 2 ** 52)
+            if var == 0:
+                okz = frac(sd) is not None and abs(frac(sd)) <= Fraction(1, 10 ** 12) * (big + 1) \
+                    and frac(m.error) is not None and abs(frac(m.error)) <= Fraction(1, 10 ** 12) * (big + 1)
+                if not okz or not close(frac(m.value), mean, vtol):
+                    return "mean() is {} +/- {}, std() is {} but all values equal {}: the standard deviation is 0".format(
+                        m.value, m.error, sd, float(mean))
+                return None
+            ratio = Fraction(big * big, 1) / var          # (max|x| / std)^2, exact
+            if ratio > 10 ** 4:
+                from math import isqrt
+                r = Fraction(isqrt(int(ratio)) + 1)         # >= max|x| / std
+                tol = Fraction(1, 10 ** 11) + 256 * eps * r
             if lowp:      # only the orders of magnitude: float32 rounding of the deviations from the mean
                 scale = float(var) + float(mean) ** 2 + 1
                 if abs(float(sd) ** 2 - float(var)) > 1e-4 * scale or abs(float(m.error) ** 2 - float(var / n)) > 1e-4 * scale \
@@ -889,7 +913,71 @@ def gen_oracle_operand(rng):
     return ["arr"] + gen_mk(rng, indexlike=INDEXLIKE_IN_ORACLE)[1:]
 
 
+OFFSETS = [10 ** 4, 10 ** 6, 2 ** 30, 10 ** 9, 123456789, -(10 ** 7)]
+
+
+def shift_num(x, off):
+    """x + off as a plain number (typed numbers become plain: small integer types would overflow)"""
+    v = frac(x) + off
+    return int(v) if v.denominator == 1 else float(v)
+
+
+def shift_item(it, off):
+    if it[0] == "num":
+        return ["num", shift_num(it[1], off)]
+    if it[0] == "pair":
+        return ["pair", shift_num(it[1], off), it[2]]
+    if it[0] == "meas":
+        return ["meas", shift_num(it[1], off)] + list(it[2:])
+    return it
+
+
+def shift_operand(o, off):
+    if o[0] == "list":
+        return ["list", [shift_item(x, off) for x in o[1]]]
+    if o[0] == "ndarray":
+        return ["ndarray", [shift_num(x, off) for x in o[1]]]
+    if o[0] == "arr":
+        return ["arr", [shift_num(x, off) for x in o[1]]] + list(o[2:])
+    return shift_item(o, off)
+
+
+def shift_case(case, off):
+    """the same history on data that is large against its spread (lengths around 1000.00x mm, timestamps ...):
+    every value gets the offset, the uncertainties stay"""
+    init = case["init"]
+    out = dict(case, init=[[shift_num(x, off) for x in init[0]]] + list(init[1:]), ops=[])
+    for op in case["ops"]:
+        if op[0] == "append":
+            out["ops"].append(["append", shift_operand(op[1], off)])
+        elif op[0] == "insert":
+            out["ops"].append(["insert", op[1], shift_operand(op[2], off)])
+        elif op[0] == "set":
+            out["ops"].append(["set", op[1], shift_item(op[2], off)])
+        else:
+            out["ops"].append(op)
+    return out
+
+
+def offset_cases():
+    """aggregates of data with |mean| / std between 1e3 and 1e9"""
+    out = []
+    for data in ([1e9, 1e9 + 1, 1e9 + 2], [1000.001, 1000.002, 1000.004, 1000.003], [123456789.25, 123456789.5],
+                 [2.0 ** 30 + 0.5, 2.0 ** 30 + 1.5, 2.0 ** 30 - 1, 2.0 ** 30, 2.0 ** 30 + 3], [1e6 + 0.1, 1e6 + 0.2, 1e6 + 0.4],
+                 [-1e7 - 1, -1e7 + 1], [5e5] * 3):
+        out.append({"init": [data, ["common", 0.5], "len", "m"],
+                    "ops": [["append", ["num", data[0] + 1]], ["delete", 0], ["set", 0, ["num", data[-1] + 0.5]]]})
+    return out
+
+
 def gen_oracle_case(rng):
+    case = gen_oracle_case0(rng)
+    if rng.random() < 0.25:
+        case = shift_case(case, rng.choice(OFFSETS))
+    return case
+
+
+def gen_oracle_case0(rng):
     init = gen_mk(rng, indexlike=INDEXLIKE_IN_ORACLE)[1:]
     n = len(init[0])
     ops = []
@@ -1035,6 +1123,7 @@ def search(ctx, suspects, budget):
             todo += session_to_oracle_cases(s["case"])
     todo += [c["case"] for c in load_corpus() if c.get("kind") == "history"]
     todo += typed_number_cases()
+    todo += offset_cases()
     n = 0
     limit = ctx.n(400, 20000)
     while True:
